@@ -2,6 +2,7 @@ import Tuc.Model.CutStr
 import Tuc.Model.FastLane
 import Tuc.Model.Stream
 import Tuc.Model.Lines
+import Tuc.Model.Chars
 import Tuc.Spec.Record
 import Tuc.Spec.Lines
 /-!
@@ -110,13 +111,6 @@ def buildBounds (kv : Kv) : Except String UserBoundsList :=
     | .ok l => .ok l
     | .fail => .error "badbounds"
     | .panic => .error "panic"
-
-def charsBag : RegexBag :=
-  let f := fun (line : Bytes) =>
-    match utf8Chars line with
-    | some cs => (boundariesFrom 0 cs).map fun p => (p, p)
-    | none => []
-  { normal := f, greedy := f }
 
 def buildOpt (kv : Kv) : Except String Opt := do
   let bounds ← buildBounds kv
